@@ -28,6 +28,10 @@ def main():
     needs = rest[rest.index("--needs") + 1] if "--needs" in rest else ""
     wt = f"/tmp/seedtest_{name}"
     sh(["git", "-C", "/repo", "worktree", "remove", "--force", wt])
+    import shutil as _sh
+
+    _sh.rmtree(wt, ignore_errors=True)
+    sh(["git", "-C", "/repo", "worktree", "prune"])
     r = sh(["git", "-C", "/repo", "worktree", "add", "-q", wt, "HEAD"])
     out = {"name": name, "patch": patch, "checks": {}}
     try:
